@@ -6,7 +6,7 @@ Unit template (.vt): ordinary Verus text plus directive lines starting with `//@
 
   //@include <path relative to vx/>
   //@extract <file> :: <seg> :: <seg> ...        (seg = `impl X`, `fn f`, `struct S`, `enum E`, `trait T`, `mod m`, `const C`)
-  //@ rules: R1 R2 R5 R9 ...                      (R2 and R9 are on by default, `rules: -R9` disables)
+  //@ rules: R4 R5 ...                            (R1, R2 and R9 are on by default, `rules: -R9` disables)
   //@ rename: newname                             (emit the fn under another name; logged)
   //@ ret: r                                      (name the return value: `-> T` becomes `-> (r: T)`)
   //@ sig: <old> => <new>                         (R3: literal replacement inside the signature only)
@@ -542,7 +542,7 @@ class Extract:
     def __init__(self, file, path):
         self.file = file
         self.path = path
-        self.rules = {'R2', 'R9'}
+        self.rules = {'R1', 'R2', 'R9'}
         self.ret = None
         self.rename = None
         self.sig = []
